@@ -201,6 +201,7 @@ func (r *RegistryImpl) Begin(ctx context.Context, engine interface{}, readOnly b
 		// Always hand the outcome to the caller. The channel is buffered, so this
 		// never blocks; a caller that has timed out rolls a late transaction back.
 		defer func() {
+			verifhook.At("reg.begin.got")
 			resultCh <- txResult{tx, err}
 		}()
 
@@ -273,6 +274,7 @@ func (r *RegistryImpl) Begin(ctx context.Context, engine interface{}, readOnly b
 		go func() {
 			if result := <-resultCh; result.tx != nil {
 				result.tx.Rollback()
+				verifhook.At("reg.begin.late")
 			}
 		}()
 
